@@ -1185,7 +1185,9 @@ class Interp:
     def ev_MethodCall(self, e):
         recv = e['recv']
         method = e['method']
-        if self._is_pure_place(recv):
+        # (a field / element of a call result, e.g. `self.metadata_mut().dependencies.extend(..)`: the call may return a reference, so the
+        # receiver is evaluated as a place -- eval_place evaluates the inner call once and follows the reference it returns)
+        if self._is_pure_place(recv) or recv['k'] in ('Field', 'Index'):
             r = self.eval_place(recv)
             rv = self.load(r)
             self_val = rv if isinstance(rv, Ref) else r
